@@ -918,3 +918,64 @@ pub fn c07_mark_error_live() { mark_wakes_all(0, 5, false) }
 pub fn c07_mark_error_closed() { mark_wakes_all(6, 11, false) }
 pub fn c07_mark_eof_live() { mark_wakes_all(0, 5, true) }
 pub fn c07_mark_eof_closed() { mark_wakes_all(6, 11, true) }
+
+/// C13.len at the message head: HEADERS with END_STREAM and a non-zero content-length is
+/// malformed (RFC 9113 §8.1.1) - for requests as well as responses, except 204/304
+/// responses; content-length 0 and HEAD responses are fine.
+fn headers_eos_content_length(is_request: bool) {
+    let c = cfg();
+    let role = if is_request { peer::Dyn::Server } else { peer::Dyn::Client };
+    let mut recv = Recv::new(role, &c);
+    recv.buffer = crate::proto::streams::buffer::verif_h::with_capacity(4);
+    let mut counts = Counts::new(role, &c);
+    let mut store = Store::new();
+    let id = StreamId::from(ID);
+    let mut stream = Stream::new(id, 0, 0);
+    // server: new stream (Idle); client: own request sent, awaiting the response
+    stream.state = st_h::state_of_shape(if is_request { 0 } else { 4 }, id);
+    stream.ref_count = 1;
+    if !is_request {
+        stream.is_counted = true;
+    }
+    let key = store_h::insert_slab_only(&mut store, stream);
+    let eos: bool = kani::any();
+    let zero: bool = kani::any();
+    let status_sel: u8 = kani::any();
+    kani::assume(status_sel < 3);
+    let status = match status_sel { 0 => http::StatusCode::OK, 1 => http::StatusCode::NO_CONTENT, _ => http::StatusCode::NOT_MODIFIED };
+    let pseudo = if is_request {
+        let mut p = frame::Pseudo::default();
+        p.method = Some(http::Method::POST);
+        p.scheme = Some(crate::hpack::BytesStr::from_static("https"));
+        p.path = Some(crate::hpack::BytesStr::from_static("/"));
+        p
+    } else {
+        frame::Pseudo::response(status)
+    };
+    let mut fields = HeaderMap::new();
+    fields.insert(http::header::CONTENT_LENGTH, http::HeaderValue::from_static(if zero { "0" } else { "5" }));
+    let mut h = frame::Headers::new(id, pseudo, fields);
+    if eos {
+        h.set_end_stream();
+    }
+    let r = {
+        let mut p = store.resolve(key);
+        recv.recv_headers(h, &mut p, &mut counts)
+    };
+    let exempt = !is_request && status_sel != 0;
+    let malformed = eos && !zero && !exempt;
+    let p = store.resolve(key);
+    if malformed {
+        assert!(r.is_err(), "C13.len: message head with END_STREAM and a non-zero content-length delivered as a valid message");
+        assert!(p.pending_recv.is_empty(), "malformed message head queued for the application");
+    }
+    kani::cover!(malformed, "malformed");
+    kani::cover!(r.is_ok() && eos, "accepted_with_eos");
+    kani::cover!(true, "end");
+    std::mem::forget(r);
+    std::mem::forget(store);
+    std::mem::forget(recv);
+    std::mem::forget(counts);
+}
+pub fn c13_len_headers_eos_request() { headers_eos_content_length(true) }
+pub fn c13_len_headers_eos_response() { headers_eos_content_length(false) }
